@@ -144,10 +144,31 @@ pub fn ir_dealloc(
 // ---------------------------------------------------------------------------------------------
 // keys
 
-fn source_lines(rel: &str) -> Vec<String> {
-    std::fs::read_to_string(format!("{}/{rel}", vcommon::repo_root()))
+fn source_lines(rel: &str) -> std::sync::Arc<Vec<String>> {
+    // read once per process: panics are frequent in C02
+    static CACHE: std::sync::Mutex<Option<(String, std::sync::Arc<Vec<String>>)>> = std::sync::Mutex::new(None);
+    let mut g = CACHE.lock().unwrap();
+    if let Some((r, l)) = g.as_ref() {
+        if r == rel {
+            return l.clone();
+        }
+    }
+    let lines: Vec<String> = std::fs::read_to_string(format!("{}/{rel}", vcommon::repo_root()))
         .map(|s| s.lines().map(|l| l.to_string()).collect())
-        .unwrap_or_default()
+        .unwrap_or_default();
+    let arc = std::sync::Arc::new(lines);
+    *g = Some((rel.to_string(), arc.clone()));
+    arc
+}
+
+/// Keep the allocator from handing memory back to the kernel after every burst (the checks
+/// allocate and free millions of small objects; `brk` churn otherwise dominates the run time).
+pub fn tune_allocator() {
+    unsafe {
+        libc::mallopt(libc::M_TRIM_THRESHOLD, 1 << 30);
+        libc::mallopt(libc::M_TOP_PAD, 64 << 20);
+        libc::mallopt(libc::M_MMAP_THRESHOLD, 1 << 30);
+    }
 }
 
 /// Where did a panic happen: `(key, harness_bug)`. Panics inside the code under test become
